@@ -83,6 +83,15 @@ pub struct RunSpec {
     pub err: SinkPlan,
     pub hash_seed: Option<u64>,
     pub max_events: usize,
+    /// simulated file arguments (hook H2): the paths must also appear in argv
+    pub files: Vec<SimFile>,
+}
+
+pub struct SimFile {
+    pub path: String,
+    pub data: Vec<u8>,
+    pub plan: FilePlan,
+    pub byte_budget: usize,
 }
 
 impl RunSpec {
@@ -102,6 +111,7 @@ impl RunSpec {
             err: SinkPlan::default(),
             hash_seed: Some(0),
             max_events: 400_000,
+            files: Vec::new(),
         }
     }
 }
@@ -123,6 +133,11 @@ pub fn run(spec: RunSpec) -> RunOut {
         }
     };
     let delivery = spec.delivery.clone();
+    let paths: Vec<String> = spec.files.iter().map(|f| f.path.clone()).collect();
+    for p in &paths {
+        // jawk checks that a file argument exists before it opens it
+        let _ = std::fs::write(p, b"");
+    }
     let w = new_world(WorldSpec {
         input: spec.input,
         delivery: spec.delivery,
@@ -130,6 +145,15 @@ pub fn run(spec: RunSpec) -> RunOut {
         hostile_stdin: spec.hostile_stdin,
         endless: spec.endless,
         byte_budget: spec.byte_budget,
+        files: spec
+            .files
+            .into_iter()
+            .map(|f| FileSrc {
+                data: f.data,
+                plan: f.plan,
+                byte_budget: f.byte_budget,
+            })
+            .collect(),
         out: spec.out,
         err: spec.err,
         max_events: spec.max_events,
@@ -138,6 +162,19 @@ pub fn run(spec: RunSpec) -> RunOut {
     jawk::verif::set_hash_seed(spec.hash_seed);
     #[cfg(not(yift_jawk_verif))]
     let _ = spec.hash_seed;
+    #[cfg(yift_jawk_verif)]
+    {
+        if paths.is_empty() {
+            jawk::verif::set_file_opener(None);
+        } else {
+            let w4 = w.clone();
+            let known = paths.clone();
+            jawk::verif::set_file_opener(Some(Box::new(move |p: &std::path::Path| {
+                let i = known.iter().position(|k| std::path::Path::new(k) == p)?;
+                Some(open_file(&w4, i).map(|s| Box::new(s) as Box<dyn std::io::Read>))
+            })));
+        }
+    }
     LAST_PANIC.with(|p| *p.borrow_mut() = None);
     let w2 = w.clone();
     let res = catch_unwind(AssertUnwindSafe(move || {
@@ -148,6 +185,11 @@ pub fn run(spec: RunSpec) -> RunOut {
         let factory: Box<dyn Fn() -> SimIn> = Box::new(move || open_stdin(&w3, &delivery));
         jawk::go(cli, stdout, stderr, factory).map_err(|e| e.to_string())
     }));
+    #[cfg(yift_jawk_verif)]
+    jawk::verif::set_file_opener(None);
+    for p in &paths {
+        let _ = std::fs::remove_file(p);
+    }
     let obs = observe(&w);
     let outcome = match res {
         Ok(Ok(())) => Outcome::Ok,
